@@ -17,13 +17,13 @@ import (
 
 const shard = 7
 
-// ground truth: at most one leader per term; one membership per configuration index.
+// ground truth: at most one leader per term; one membership per configuration index (the last one removes a node that led an earlier term).
 var leaderOf = map[uint64]uint64{1: 1, 2: 2, 3: 1}
 var membership = map[uint64]map[uint64]string{
 	0: nil,
 	1: {1: "a"},
 	2: {1: "a", 2: "b"},
-	3: {1: "a", 2: "b", 3: "c"},
+	3: {1: "a", 3: "c"}, // node 2 (a former leader) removed
 }
 
 type upd struct {
